@@ -2,6 +2,7 @@ package in_toto
 
 import (
 	"context"
+	"crypto/ed25519"
 	"encoding/base64"
 	"encoding/json"
 	"errors"
@@ -149,6 +150,22 @@ func (e *Envelope) Dump(path string) error {
 }
 
 func getSignerVerifierFromKey(key Key) (dsse.SignerVerifier, error) {
+	// The constructors below assert the type of the parsed key material and
+	// hand ed25519 keys to crypto/ed25519 without looking at their length.
+	// Both panic, if the material is not what the key claims to be.
+	if err := validateKeyVal(key); err != nil {
+		return nil, err
+	}
+	if key.KeyType == ed25519KeyType {
+		if len(key.KeyVal.Public) != 2*ed25519.PublicKeySize {
+			return nil, ErrInvalidKey
+		}
+		privateLen := len(key.KeyVal.Private)
+		if privateLen != 0 && privateLen != 2*ed25519.SeedSize && privateLen != 2*ed25519.PrivateKeySize {
+			return nil, ErrInvalidKey
+		}
+	}
+
 	sslibKey := getSSLibKeyFromKey(key)
 
 	switch sslibKey.KeyType {
